@@ -1,7 +1,7 @@
 (* C12 — snapshot export then import reproduces the graph.
    Property theorems only; proofs live in proofs/SnapshotJsonProofs.v. *)
 From Coq Require Import List NArith ZArith Bool.
-From Verif Require Import SnapshotJson SnapshotJsonProofs SnapshotJsonWitness.
+From Verif Require Import SnapshotJson SnapshotJsonProofs SnapshotJsonWitness SnapshotImportProofs SnapshotContentProofs.
 Import ListNotations.
 Open Scope N_scope.
 
@@ -29,6 +29,21 @@ Theorem C12_graph_rt : forall narrow norm numstr g,
       = Imported g' (nlen (nodes g)) 0
     /\ iso m g g'.
 Proof. exact graph_rt. Qed.
+
+(* import into ANY store (not only an empty one) without dedup keys is the disjoint union:
+   nothing is merged, the nodes are the previous ones unchanged followed by one new node per
+   node record (new pairwise distinct ids, the record's labels and values), the relationships
+   the previous ones followed by one per edge record *)
+Theorem C12_import_disjoint_union : forall narrow norm numstr s h ls s' c m,
+  wf_pre s -> wf_lines ls ->
+  import narrow norm numstr s h ls [] = Imported s' c m ->
+  exists acts cr,
+    map act_rec acts = line_recs ls /\ m = 0
+    /\ nodes s' = nodes s ++ cr
+    /\ Forall2 (fun p n' => create_spec narrow (fst p) (snd p) n') (creates acts) cr
+    /\ NoDup (map n_id (nodes s'))
+    /\ edges s' = edges s ++ links_of narrow acts.
+Proof. exact disjoint_union. Qed.
 
 (* ---- the recorded classes are genuinely violated (faithful model) ---- *)
 (* rt_holds g: importing the export of g into an empty store yields a graph isomorphic to g *)
@@ -59,3 +74,4 @@ Print Assumptions C12_graph_rt.
 Print Assumptions C12_refuted_nonfinite.
 Print Assumptions C12_refuted_type_tag.
 Print Assumptions C12_refuted_hier_ops.
+Print Assumptions C12_import_disjoint_union.
